@@ -48,6 +48,9 @@ CHECKS = {
  "C02": dict(tech="static analysis: sort-before-read path rule, effect rule (no stores through the slice), canonical index expressions with opaque integer division, midpoint form recogniser, result-construction provenance on SSA",
    text="Structural premises of the containment lemma decided exactly: all element reads behind slices.Sort/SortFunc (comparator = cmp.Compare on Offset only); no writes through the slice; indices (n-1)/3 and n-1-(n-1)/3 (FTM), n/2 and n/2-1 with n%2 split (median); n==0 panics; Midpoint = x+(y-x)/2; measurement results built from Offset/Timestamp of the selected elements only (Error nil), timestamp = earlier+(later-earlier)/2. The lemma itself is mathematics stated in DESIGN.md, not re-derived.",
    ref="DESIGN.md §4 C02"),
+ "C17": dict(tech="static analysis: written-field set vs. Reset assignments (reset completeness), epoch-test-before-state-read path rule, alias classification of sort arguments and window writes on SSA",
+   text="History-independence and window-integrity clauses decided exactly: every field any method writes is assigned a history-independent value by Reset (scratch buffer exempt because it is fully overwritten before use, which is checked); in NtimedFilter.Do all reads of learned state are behind epoch==timebase.Epoch() or Reset(); the lucky-packet window is modified only by the one-slot shift when full and the append, sorting acts on the scratch copy only, selection is sort by delay, keep pick, sort by offset. The numeric selection rule and Ntimed arithmetic are not decided.",
+   ref="DESIGN.md §4 C17"),
 }
 NA = {
  "C04": "all clauses are value arithmetic over time.Time/uint32 (truncation direction, era unfolding, order preservation); no structural or finite-domain clause; matching the constants would be a frozen-fragment proxy",
